@@ -35,7 +35,7 @@ type tcase struct {
 
 func run(c *hx.Ctx) error {
 	res := c.Res
-	res.Rule = "reach: {the way a native function is reached: direct call, function value in a variable / passed as argument / returned / in a struct field / in a slice, method, method value, method expression, the same three through a native interface type} x {what it does: panic(int/string/error/custom error), nothing, print, Stop, Fatal, calling back a Scriggo function that panics, raises a run-time error, recovers, recovers its own panic, returns, Stops, Fatals} x {called, deferred, deferred while unwinding; no recover, recover in a deferred closure, defer recover(), re-panic, second panic, one and two calls deep}, all on the VM and the Lean machines, a sample and every disagreement by gc; template: the same reaches x {statement, show, macro body, show in a macro body, recovering function literal} against the documentation; and three streams. uniform: random function tables (2–7 functions, acyclic references, ≤ 6 instructions each) over call/defer/defer recover()/return/panic/recover/re-panic/print (+ Stop/Fatal in a third); grammar: nested functions with 0–3 deferred calls each whose deferred functions recover, re-panic, panic again, defer and call further functions (depth ≤ 3); exhaustive: every program main(≤3 instr)/f1(≤2)/f2(≤2) over defer/call/panic/recover(/re-panic in f2), all run on the VM and the Lean machines, a seed-dependent sample of them and every disagreement also by gc. Functions written as top-level function, literal or closure variable, panics as builtin, native function or native method; non-trivial: a panic is raised at run time; distinct by abstract program"
+	res.Rule = "reach: {the way a native function is reached: direct call, function value in a variable / passed as argument / returned / in a struct field / in a slice, method, method value, method expression, the same three through a native interface type} x {what it does: panic(int/string/error/custom error), nothing, print, Stop, Fatal, calling back a Scriggo function that panics, raises a run-time error, recovers, recovers its own panic, returns, Stops, Fatals} x {called, deferred, deferred while unwinding; no recover, recover in a deferred closure, defer recover(), re-panic, second panic, one and two calls deep}, all on the VM and the Lean machines, a sample and every disagreement by gc; stop-state: {Stop(err), Stop(nil), Fatal(v) by the native function itself or in a Scriggo callback it calls, there also after recover()} x {called by a deferred closure (plain, after its own recover(), followed by a print, deferring it in turn), deferred directly as function, function value, method value, method expression, interface method value, argument} x {no panic, a panic active in this frame, in an outer frame, in a callee, recovered earlier, two active panics} x {bare, inside a function whose deferred closure recovers}, decided by the documentation through the marker printed before every Stop/Fatal (Stop(err) => Run returns err, Fatal(v) => Run panics with v, nothing runs afterwards — whatever panics are active); template: the same reaches x {statement, show, macro body, show in a macro body, recovering function literal} against the documentation; and three streams. uniform: random function tables (2–7 functions, acyclic references, ≤ 6 instructions each) over call/defer/defer recover()/return/panic/recover/re-panic/print (+ Stop/Fatal in a third); grammar: nested functions with 0–3 deferred calls each whose deferred functions recover, re-panic, panic again, defer and call further functions (depth ≤ 3); exhaustive: every program main(≤3 instr)/f1(≤2)/f2(≤2) over defer/call/panic/recover(/re-panic in f2), all run on the VM and the Lean machines, a seed-dependent sample of them and every disagreement also by gc. Functions written as top-level function, literal or closure variable, panics as builtin, native function or native method; non-trivial: a panic is raised at run time; distinct by abstract program"
 	if c.Replay != "" {
 		return replay(c)
 	}
@@ -60,6 +60,9 @@ func run(c *hx.Ctx) error {
 	}
 	for i, p := range reachMatrix() {
 		cases = append(cases, &tcase{p: p, stream: "reach", noGc: i%every != off})
+	}
+	for _, p := range stopMatrix() {
+		cases = append(cases, &tcase{p: p, stream: "stop-state", noGc: true})
 	}
 	if err := checkCases(c, cases, true); err != nil {
 		return err
@@ -217,7 +220,7 @@ func noMarker(s string) string {
 	}
 	var ev []string
 	for _, e := range strings.Split(s[4:i], ",") {
-		if e != "S" && e != "-" {
+		if !strings.HasPrefix(e, "S") && e != "-" {
 			ev = append(ev, e)
 		}
 	}
@@ -232,34 +235,49 @@ func gcFormLine(s string) string {
 	return s[:i] + " res=" + gcForm(s[i+5:])
 }
 
-// docOracle checks a Stop/Fatal program against the documentation alone: nothing runs after
-// Stop or Fatal (the marker printed just before is the last output), Run returns the error
-// given to Stop, the host panics with the value given to Fatal, an unrecovered panic comes
-// back as *PanicError whose chain ends.
+// docOracle checks a Stop/Fatal program against the documentation alone. Every call of Stop and
+// Fatal prints a marker just before ("Ss<k>", "Sf<v>"), so the run itself says whether and with
+// what value Stop or Fatal was reached: Stop(err) ⇒ Run returns err itself, Fatal(v) ⇒ Run panics
+// with v — whatever panics are active or were recovered at that moment, also inside a Scriggo
+// function called back by native code — and nothing runs after the call (the marker is the last
+// output); without a marker Run neither panics nor returns a Stop error; an unrecovered panic
+// comes back as *PanicError whose chain ends.
 func docOracle(t *tcase) string {
 	r := t.real
-	switch {
-	case r.Res == "hostpanic":
-		return "no-host-panic-except-Fatal"
-	case r.Res == "builderror" || r.Res == "error":
+	if r.Res == "builderror" || r.Res == "error" {
 		return "run-result-is-documented"
-	case strings.HasPrefix(r.Res, "stop:") || strings.HasPrefix(r.Res, "fatal:"):
-		// the value must be one the program passes to Stop/Fatal
-		want := false
-		for _, f := range t.p.Funcs {
-			for _, in := range f {
-				if in.Op == opStop && r.Res == fmt.Sprintf("stop:%d", in.Arg) || in.Op == opFatal && r.Res == fmt.Sprintf("fatal:%d", in.Arg) {
-					want = true
-				}
-			}
+	}
+	var ev []string
+	if r.Events != "" {
+		ev = strings.Split(r.Events, ",")
+	}
+	first := -1
+	for i, e := range ev {
+		if strings.HasPrefix(e, "S") {
+			first = i
+			break
 		}
-		if !want && strings.HasPrefix(r.Res, "fatal:") {
-			return "no-host-panic-except-Fatal" // Run panicked with a value the program gives to no Fatal call
-		}
-		if !want {
+	}
+	if first < 0 {
+		switch {
+		case r.Res == "hostpanic" || strings.HasPrefix(r.Res, "fatal:"):
+			return "no-host-panic-except-Fatal" // Run panicked although Fatal was never called
+		case strings.HasPrefix(r.Res, "stop:"):
 			return "value-given-to-Stop-or-Fatal"
 		}
-		if !strings.HasSuffix(r.Events, "S") {
+	} else {
+		m := ev[first]
+		want := "stop:" + m[2:]
+		clause := "Stop-returns-its-error-whatever-panics-are-active"
+		if m[1] == 'f' {
+			want, clause = "fatal:"+m[2:], "Fatal-panics-with-its-value-whatever-panics-are-active"
+		} else if want == "stop:0" {
+			want = "done" // Stop(nil): Run returns nil
+		}
+		if r.Res != want {
+			return clause
+		}
+		if first != len(ev)-1 {
 			return "nothing-runs-after-Stop-or-Fatal"
 		}
 	}
